@@ -145,13 +145,19 @@ fn worker_run(args: &[String]) -> i32 {
             let e = o["e"].as_i64().unwrap_or(0) != 0;
             let t = o["t"].as_i64().unwrap_or(0) != 0;
             let y = o["y"].as_u64().unwrap_or(0) as usize;
+            let m = o["m"].as_i64().unwrap_or(0) != 0;
+            if mode == Mode::Real && m {
+                // job control on the real OS wants a controlling terminal
+                unsupported += 1;
+                continue;
+            }
             let exp_tr = tr_of(&o["tr"]);
             let exp_st = o["st"].as_i64().unwrap_or(0);
             for vi in 0..variants {
                 let s = mix(mix(mix(sd, idx as u64), oi as u64), vi as u64);
                 // the first variant is the plain rendering, the others vary the surface
                 let mut rd = Renderer::new(s, mode, vi > 0 || variants == 1 && idx % 2 == 1);
-                let rendered = rd.program(&tree, e, t, y);
+                let rendered = rd.program(&tree, e, t, y, m);
                 let obs = execute(mode, &rendered);
                 runs += 1;
                 let verdict = exec::matches(&exp_tr, exp_st, &obs, mode == Mode::Real && has_pipe);
@@ -161,7 +167,7 @@ fn worker_run(args: &[String]) -> i32 {
                 }
                 if let Err(why) = verdict {
                     if fails.len() < 2 {
-                        fails.push(json!({"e": o["e"], "t": o["t"], "y": o["y"], "tag": o["tag"], "why": why, "text": rendered.script,
+                        fails.push(json!({"e": o["e"], "t": o["t"], "y": o["y"], "m": o["m"], "tag": o["tag"], "why": why, "text": rendered.script,
                             "flags": rendered.flags, "stdin": rendered.via_stdin,
                             "expected": {"tr": o["tr"], "st": exp_st}, "observed": obs_json(&obs)}));
                     }
@@ -212,9 +218,11 @@ fn worker_random(args: &[String]) -> i32 {
         } else {
             (false, rng.gen_bool(0.2), 0)
         };
+        let jobs = tree.any(&|n| n.k == "pipe" || n.k == "sub");
+        let m = jobs && rng.gen_bool(0.3);
         let mut rd = Renderer::new(mix(sd, idx as u64), Mode::Sim, true);
-        let rendered = rd.program(&tree, e, t, y);
-        let head = json!({"i": idx, "p": toks, "e": e as i64, "t": t as i64, "y": y, "text": rendered.script,
+        let rendered = rd.program(&tree, e, t, y, m);
+        let head = json!({"i": idx, "p": toks, "e": e as i64, "t": t as i64, "y": y, "m": m as i64, "text": rendered.script,
                           "flags": rendered.flags, "stdin": rendered.via_stdin});
         emit(&format!("S {} {}", idx, head));
         let obs = exec::run_sim(&rendered);
@@ -458,7 +466,8 @@ fn cmd_random(args: &[String]) -> i32 {
             v["st"] = json!(-1);
         }
         let _ = writeln!(full, "{v}");
-        let slim = json!({"p": v["p"], "e": v["e"], "t": v["t"], "y": v["y"], "oc": v["oc"], "tr": v["tr"], "st": v["st"]});
+        let slim = json!({"p": v["p"], "e": v["e"], "t": v["t"], "y": v["y"], "m": v["m"], "oc": v["oc"], "tr": v["tr"],
+                          "st": v["st"]});
         let _ = writeln!(out, "{slim}");
     }
     0
@@ -479,7 +488,8 @@ fn cmd_redo(args: &[String]) -> i32 {
         let toks: Vec<Tok> = serde_json::from_value(v["p"].clone()).expect("tokens");
         let tree: Node = ast::parse(&toks).expect("program");
         let mut rd = Renderer::new(1, mode, false);
-        rd.program(&tree, v["e"].as_i64().unwrap_or(0) != 0, v["t"].as_i64().unwrap_or(0) != 0, v["y"].as_u64().unwrap_or(0) as usize)
+        rd.program(&tree, v["e"].as_i64().unwrap_or(0) != 0, v["t"].as_i64().unwrap_or(0) != 0,
+                   v["y"].as_u64().unwrap_or(0) as usize, v["m"].as_i64().unwrap_or(0) != 0)
     };
     let obs = execute(mode, &rendered);
     println!("{}", json!({"text": rendered.script, "flags": rendered.flags, "observed": obs_json(&obs)}));
@@ -496,7 +506,7 @@ fn cmd_render(args: &[String]) -> i32 {
         let toks: Vec<Tok> = serde_json::from_value(v["p"].clone()).unwrap();
         let tree = ast::parse(&toks).unwrap();
         let mut rd = Renderer::new(idx as u64, Mode::Sim, vary);
-        let r = rd.program(&tree, false, false, 0);
+        let r = rd.program(&tree, false, false, 0, false);
         println!("{}", json!({"i": idx, "text": r.script, "o": v["o"]}));
     }
     0
